@@ -374,3 +374,45 @@ def call_calendar(case):
     except Exception:
         res["toks"] = []
     return res
+
+
+# --------------------------------------------------------------------------- C13: language selection
+def _ddp_outcome(s, settings, **kw):
+    from dateparser.date import DateDataParser
+    dd = DateDataParser(settings=settings, **kw).get_date_data(s)
+    d = dd["date_obj"]
+    if d is None:
+        return {"loc": "", "res": []}
+    return {"loc": dd["locale"] or "", "res": [dt_to_list(d.replace(tzinfo=None)), dd["period"] or ""]}
+
+
+def call_c13(case):
+    """case: {s, langs, given, defaults, settings, region: [lang, region] | null}"""
+    st = decode_settings(case.get("settings") or {})
+    res = {"exc": "", "singles": [], "order": case["order"]}
+    try:
+        for L in case["order"]:
+            res["singles"].append(_ddp_outcome(case["s"], dict(st), languages=[L]))
+        res["multi"] = _ddp_outcome(case["s"], dict(st), languages=list(case["langs"]), use_given_order=bool(case["given"]))
+        st2 = dict(st)
+        st2["DEFAULT_LANGUAGES"] = list(case["defaults"])
+        res["multidef"] = _ddp_outcome(case["s"], st2, languages=list(case["langs"]), use_given_order=bool(case["given"]))
+        res["auto"] = _ddp_outcome(case["s"], dict(st))
+        if res["auto"]["loc"]:
+            from dateparser.data import language_order
+            loc = res["auto"]["loc"]
+            res["reparse"] = _ddp_outcome(case["s"], dict(st), **({"languages": [loc]} if loc in language_order else {"locales": [loc]}))
+        else:
+            res["reparse"] = {"loc": "", "res": []}
+        if case.get("region"):
+            lang, reg = case["region"]
+            res["region"] = _ddp_outcome(case["s"], dict(st), languages=[lang], region=reg)
+            res["asLocale"] = _ddp_outcome(case["s"], dict(st), locales=["%s-%s" % (lang, reg)])
+        else:
+            res["region"] = {"loc": "", "res": []}
+            res["asLocale"] = {"loc": "", "res": []}
+    except BaseException as e:  # noqa
+        res["exc"] = type(e).__name__
+        for k in ("multi", "multidef", "auto", "reparse", "region", "asLocale"):
+            res.setdefault(k, {"loc": "", "res": []})
+    return res
